@@ -1,4 +1,5 @@
 import D2V.Model.B64
+import D2V.Gen.Urlenc
 /-! C43 — Playground URL encoding round-trips every script. -/
 namespace D2V.B64
 
@@ -100,5 +101,11 @@ theorem C43_urlsafe (deflate : List UInt8 → List UInt8) (s : List UInt8) :
 /-- the hypothesis of `C43_roundtrip` is satisfiable (identity "compressor") and the statement is not vacuous -/
 example : Decode some (Encode id [104, 105, 255]) = some [104, 105, 255] :=
   C43_roundtrip id some (fun _ => rfl) _
+
+/-- tie R: `urlenc.Encode`/`Decode` call exactly the padded URL-safe encoding this model is a model of, and the
+    dictionary-less flate pair (regenerated from lib/urlenc/urlenc.go on every run). -/
+theorem C43_code_uses_modelled_encoding :
+    D2V.Gen.Urlenc.encodeCalls = ["flate.NewWriterDict", "base64.URLEncoding.EncodeToString"] ∧
+    D2V.Gen.Urlenc.decodeCalls = ["base64.URLEncoding.DecodeString", "flate.NewReaderDict"] := by decide
 
 end D2V.B64
